@@ -103,7 +103,7 @@ GenSNeg    == On("SNeg") /\ \E a \in Handles : K(a, {"S"}) /\ Recent(a) /\ Do(C2
 GenFn      == On("Fn") /\ \E f \in Fns, a \in Handles : K(a, {"S"}) /\ Recent(a) /\ Do(C2("Fn", a, 0, f))
 GenVFn     == On("VFn") /\ \E f \in Fns, a \in Handles : K(a, {"V", "E", "MVP"}) /\ Recent(a) /\ Do(C2("Fn", a, 0, f))
 GenIndex   == On("Index") /\ \E a \in Handles, i \in Indices :
-                 K(a, {"V", "E", "MVP", "EP", "EU"}) /\ Recent(a) /\ Do(CI("Index", a, i, 0, 0))
+                 K(a, {"V", "E", "MVP", "EP", "EU", "VP"}) /\ Recent(a) /\ Do(CI("Index", a, i, 0, 0))
 GenSlice   == On("Slice") /\ \E a \in Handles, sl \in Slices :
                  K(a, {"V"}) /\ Recent(a) /\ Do(CI("Slice", a, sl[1], sl[2], sl[3]))
 GenVBin    == On("VBin") /\ \E op \in VOps, a \in Handles, b \in Handles :
@@ -182,5 +182,5 @@ TopTerms == IF Top.kind = "S" THEN <<Top.den>>
 DenClosed == \A i \in 1..Len(TopTerms) : TVars(TopTerms[i]) \subseteq AllNames
 \* derivative table exact / Hessian symmetric on every enumerated rational-fragment denotation
 TopDerivExact == Top.kind = "S" => \A v \in AllNames :
-    LET n == QNF(Top.den) IN n.ok => LET dn == QNF(DS(Top.den, v)) IN dn.ok => QEq(dn.q, QDeriv(n.q, v))
+    LET n == QNF(Top.den) IN n.ok => LET dn == QNF(DS(Top.den, v)) IN dn.ok => QEqSafe(dn.q, QDeriv(n.q, v))
 =============================================================================
